@@ -14,3 +14,5 @@ def check(rep, tier):
     rep.run(rules_numeric.run, rep, tier, clauses=('N-shape', 'N-jvp-space'))
     rep.run(rules_numeric.run_astype, rep)
     rep.run(rules_numeric.run_lowprec, rep, tier)
+    from contracts import rules_shape as _rs
+    rep.run(_rs.run_linalg, rep, tier)      # E3 over autograd/numpy/linalg.py: symbolic matrix and batch sizes
